@@ -33,7 +33,7 @@ import (
 	"github.com/iotaledger/hive.go/ds/reactive"
 )
 
-const dirSettleTimeout = 30 * time.Second
+const dirSettleTimeout = 20 * time.Second
 
 type dirThread struct {
 	goid atomic.Int64
@@ -46,9 +46,9 @@ type dirSub struct {
 	owner    int // thread that calls OnUpdate
 	enters   atomic.Int32
 	gmu      sync.Mutex
-	pending  map[int]bool            // invocation numbers that are gated
-	cur      atomic.Pointer[dirGate] // the gate the running invocation stands at (nil: none)
-	unsubs   int                     // unsubscribe calls started
+	pending  map[int]bool // invocation numbers that are gated
+	standing []*dirGate   // the gates invocations of this subscription stand at (more than one only if callbacks overlap)
+	unsubs   int          // unsubscribe calls started
 	reported bool
 }
 
@@ -65,6 +65,38 @@ func (g *dirGate) open() {
 	for !g.left.Load() {
 		runtime.Gosched()
 	}
+}
+
+func (s *dirSub) held() bool {
+	s.gmu.Lock()
+	defer s.gmu.Unlock()
+
+	return len(s.standing) > 0
+}
+
+func (s *dirSub) standsAt(goroutine int64) bool {
+	s.gmu.Lock()
+	defer s.gmu.Unlock()
+	for _, g := range s.standing {
+		if g.id == goroutine {
+			return true
+		}
+	}
+
+	return false
+}
+
+// takeGate removes the oldest standing gate.
+func (s *dirSub) takeGate() *dirGate {
+	s.gmu.Lock()
+	defer s.gmu.Unlock()
+	if len(s.standing) == 0 {
+		return nil
+	}
+	g := s.standing[0]
+	s.standing = s.standing[1:]
+
+	return g
 }
 
 type dirWorld struct {
@@ -172,7 +204,7 @@ func (w *dirWorld) settle() bool {
 				}
 				gate := -1
 				for _, s := range w.subs {
-					if g := s.cur.Load(); g != nil && g.id == id {
+					if s.standsAt(id) {
 						gate = s.idx
 					}
 				}
@@ -246,7 +278,9 @@ func (w *dirWorld) body(s *dirSub, note string) {
 	s.gmu.Unlock()
 	if gated {
 		g := &dirGate{ch: make(chan struct{}), id: goid()}
-		s.cur.Store(g)
+		s.gmu.Lock()
+		s.standing = append(s.standing, g)
+		s.gmu.Unlock()
 		<-g.ch
 		g.left.Store(true)
 	}
@@ -256,7 +290,7 @@ func (w *dirWorld) body(s *dirSub, note string) {
 
 func (w *dirWorld) heldSubs() (hs []int) {
 	for _, s := range w.subs {
-		if s.cur.Load() != nil {
+		if s.held() {
 			hs = append(hs, s.idx)
 		}
 	}
@@ -493,7 +527,7 @@ func (w *dirWorld) exec(op string) string {
 		if err != nil || c < 0 || c >= len(w.subs) {
 			return "bad-op"
 		}
-		g := w.subs[c].cur.Swap(nil)
+		g := w.subs[c].takeGate()
 		if g == nil {
 			return "bad-op"
 		}
@@ -508,7 +542,7 @@ func (w *dirWorld) exec(op string) string {
 		}
 		for {
 			for _, s := range w.subs {
-				if g := s.cur.Swap(nil); g != nil {
+				for g := s.takeGate(); g != nil; g = s.takeGate() {
 					g.open()
 				}
 			}
@@ -538,7 +572,7 @@ func (w *dirWorld) cleanup() {
 		s.gmu.Lock()
 		s.pending = map[int]bool{}
 		s.gmu.Unlock()
-		if g := s.cur.Swap(nil); g != nil {
+		for g := s.takeGate(); g != nil; g = s.takeGate() {
 			close(g.ch)
 		}
 	}
@@ -763,7 +797,7 @@ func genDirCase(r *hx.Run, rng *hx.Rng) {
 					if !w.threads[s.owner].done.Load() {
 						continue // OnUpdate has not returned the unsubscribe function yet
 					}
-					if s.cur.Load() != nil && parked > 0 {
+					if s.held() && parked > 0 {
 						continue
 					}
 					if s.unsubs >= 2 {
@@ -827,7 +861,7 @@ func runDirPart(r *hx.Run) {
 	if r.Scale > 1 {
 		n = 6000
 	}
-	for i := 0; i < n; i++ {
+	for i := 0; i < n && dirDrops < 3; i++ {
 		rng, sub := r.Rng.Fork()
 		r.Case(sub)
 		genDirCase(r, rng)
